@@ -292,7 +292,16 @@ func (runInfo *runInfoStruct) invokeAddrExpr(expr *ast.AddrExpr) {
 
 	// the address of a variable is the address of a copy of its value, wherever that value came from (a
 	// variable bound from a slice element holds an addressable copy; it must not behave differently)
-	_, isVariable := expr.Expr.(*ast.IdentExpr)
+	operand := expr.Expr
+	for {
+		// parentheses do not make a variable something else
+		paren, ok := operand.(*ast.ParenExpr)
+		if !ok {
+			break
+		}
+		operand = paren.SubExpr
+	}
+	_, isVariable := operand.(*ast.IdentExpr)
 	if !isVariable && runInfo.rv.CanAddr() && !(runInfo.rv.Kind() == reflect.Interface && runInfo.rv.IsNil()) {
 		runInfo.rv = runInfo.rv.Addr()
 	} else {
